@@ -70,7 +70,7 @@ FmPats   == {"def", "ident", "scaled", "skew", "huge", "neg"}
 \* "extreme": numbers beyond 1e-290..1e290 (denormal, beyond the reader's clamp): the font is marked
 \* loose and only termination / success of Write and Read is judged for its FontMatrix
 FmPatsX  == FmPats \cup {"extreme"}
-PrivPats == {"none", "typ", "max14", "bnd"}
+PrivPats == {"none", "typ", "max14", "bnd", "wide"}
 ShapePats == {"blank", "mixed", "bulk"}
 Ns       == {1, 2, 3, 5, 12, 40, 150, 230, 258, 300, 520}
 Bulks    == {3, 40, 400}
@@ -305,6 +305,8 @@ Blues(pat) == CASE pat = "none"  -> <<>>
                 [] pat = "typ"   -> <<-10, 0, 700, 710>>
                 [] pat = "max14" -> <<-300, -290, 0, 10, 500, 510, 700, 710, 1000, 1010, 1500, 1510, 16000, 16383>>
                 [] pat = "bnd"   -> <<-108, -1, 107, 1238, 2370, 1239, 107, 10107>>
+                \* neighbouring values farther apart than a 16-bit delta holds (the values themselves are 16-bit)
+                [] pat = "wide"  -> <<-20000, 20000, 20010, 32767>>
 
 (* Private DICT size sweep.  The writer stores in every Private DICT the offset of the (shared, final) Subrs
    INDEX relative to that DICT: for the last DICT this is the DICT's own length, a number that is itself part of
@@ -332,7 +334,7 @@ PrivOf(dd, j) ==   \* private dictionary j (1-based) of descriptor dd
       r  == dd.realSel + j - 1
       pp == IF j = 1 THEN dd.privPat
             ELSE CASE dd.privPat = "none" -> "typ" [] dd.privPat = "typ" -> "bnd"
-                   [] dd.privPat = "max14" -> "none" [] dd.privPat = "bnd" -> "max14"
+                   [] dd.privPat = "max14" -> "none" [] dd.privPat = "bnd" -> "max14" [] dd.privPat = "wide" -> "wide"
       sh == ShapeBlock(dd.realSel, dd.intSel, j)
   IN IF dd.fmPat = "shapes" THEN
      \* every float-typed field of the private / font DICT carries a shape real that fits its range
@@ -345,7 +347,7 @@ PrivOf(dd, j) ==   \* private dictionary j (1-based) of descriptor dd
       fm |-> [i \in 1..6 |-> Me(sh[i])]]
      ELSE
      [blues |-> Blues(pp),
-      other |-> IF pp \in {"max14", "bnd"} THEN <<-250, -240>> ELSE <<>>,
+      other |-> IF pp \in {"max14", "bnd"} THEN <<-250, -240>> ELSE IF pp = "wide" THEN <<-32768, 32767>> ELSE <<>>,
       blueScale |-> BlueScales[((r - 1) % Len(BlueScales)) + 1],
       blueShift |-> IntBnd[((s - 1) % Len(IntBnd)) + 1],
       blueFuzz  |-> IntBnd[((s + 6) % Len(IntBnd)) + 1],
